@@ -125,9 +125,10 @@ def oracle_structured(ctx, case, view, reserved=frozenset(), late_reports=False,
                     # add_destinations call was passing on the backlog
                     if all(view[pos[k]].get("message_type") == "eliot:destination_failure" and flush[0] <= pos[k] < flush[1] for k in early):
                         key = {"order": "failure-report-before-remaining-backlog", "during": "first add_destinations"}
-                ctx.violation("inside action %s%s emission order differs from level order (items %s were emitted before items of "
-                              "lower position)" % (u, list(L), early), case, key=key)
-                return
+                if ctx.violation("inside action %s%s emission order differs from level order (items %s were emitted before items of "
+                                 "lower position)" % (u, list(L), early), case, key=key):
+                    return
+                # (a recorded finding: go on with the remaining clauses for this action and the other actions)
             first = [m for lvl, i, m in msgs if tuple(lvl) == L + (1,)]
             if not first or first[0].get("action_status") != "started":
                 ctx.violation("position 1 of action %s%s is not its start message" % (u, list(L)), case)
@@ -147,6 +148,17 @@ def oracle_structured(ctx, case, view, reserved=frozenset(), late_reports=False,
             if ends and ends[0][0][-1] != last:
                 ctx.violation("end message of action %s%s is at position %d of %d" % (u, list(L), ends[0][0][-1], len(ks)), case)
                 return
+
+
+def healthy_first(case, rng=None):
+    """The property speaks of what a destination that accepts every message observes: keep the first destination of the first
+    add_destinations call free of failures (all others keep their masks)."""
+    for st in _all_stmts(case["prog"]):
+        if st["op"] == "addDests" and st["ds"]:
+            d0 = st["ds"][0]
+            env = dict(case["env"], destFail=[f for f in case["env"]["destFail"] if f[0] != d0])
+            return dict(case, env=env)
+    return case
 
 
 def explicit_finish(case, rng):
@@ -175,7 +187,7 @@ def explicit_finish(case, rng):
             else:
                 out.append(s)
         return out
-    return dict(case, prog=walk(case["prog"]))
+    return healthy_first(dict(case, prog=walk(case["prog"])))
 
 
 def make_oracle(structured, late_reports=False):
@@ -184,6 +196,7 @@ def make_oracle(structured, late_reports=False):
             return
         bad = [a for a in rt.api if a[1] != "ok"]
         if bad:
+            ctx.count("api_call_raised")
             return  # C07's business
         view = healthy_view(case, real, rt)
         if view is None:
@@ -212,11 +225,11 @@ def run(ctx):
                          nontrivial=nontrivial, compare=["offered", "accepted", "outcome"], transform=explicit_finish)
     # the first add_destinations call comes late (maybe inside an open action): the start-up backlog is delivered by that call
     syscorr.run_programs(ctx, n // 5, dict(STRUCT, p_late_add=1.0, max_stmts=14), make_oracle(True), label="late-add",
-                         nontrivial=nontrivial, compare=["offered", "accepted", "outcome"])
+                         nontrivial=nontrivial, compare=["offered", "accepted", "outcome"], transform=healthy_first)
     syscorr.run_programs(ctx, (2 * n) // 5, STRUCT, make_oracle(True), label="struct", nontrivial=nontrivial,
-                         compare=["offered", "accepted", "outcome"])
+                         compare=["offered", "accepted", "outcome"], transform=healthy_first)
     syscorr.run_programs(ctx, (2 * n) // 5, UNSTRUCT, make_oracle(False), label="unstruct", nontrivial=nontrivial,
-                         compare=["offered", "accepted", "outcome"])
+                         compare=["offered", "accepted", "outcome"], transform=healthy_first)
 
 
 def _all_stmts(block):
